@@ -4,7 +4,7 @@ from ..defuse import du_of, walk, peel, callee_name, fmt
 from ..conds import lits_of, all_edge_lits, status_variant
 from ..callgraph import cg_of
 from ..effects import effects_of
-from ..common import arg_term, contains_call, field_path, assigns_of_return
+from ..common import arg_term, contains_call, field_path, assigns_of_return, whole_iteration
 from . import c02
 
 TEXT = ("Thin claim: equality with the past state is a history property and is NOT decided. Decided structural clauses: "
@@ -41,13 +41,13 @@ def run(facts, res):
             st = c02.status_guard(b, bi, facts)
             applied = any(l.kind == "call" and callee_name(l.term) == "is_ok" and l.truth is True and contains_call(l.term[2][0], "apply_delta")
                           for l in lits_of(b, bi, facts))
-            ok = st == "Ready" and applied and not partial and contains_call(v, "next")
+            ok = st == "Ready" and applied and not partial and whole_iteration(b, v)
             seen_parent = seen_parent or ok
             res.instance("T1", "reload_until: every parent of an applied block is enqueued (status %s, after successful apply %s, whole set %s)" % (st, applied, not partial), b.loc(t.line))
             if not ok:
                 res.violation("T1", "reload_until|parents-not-enqueued", "reload_until does not enqueue every parent of each successfully applied block", b.loc(t.line))
         elif any(x[0] == "param" and x[2] == "anchors" for x in walk(v)):
-            ok = not partial and contains_call(v, "next")
+            ok = not partial and whole_iteration(b, v)
             seen_heads = seen_heads or ok
             res.instance("T1", "reload_until: every requested head is enqueued: %s" % ok, b.loc(t.line))
             if not ok:
